@@ -56,7 +56,9 @@ func main() {
 	safety := flag.Bool("safety", false, "generate panic-freedom obligations")
 	tmp := flag.String("tmp", "/verif/out/tmp", "scratch directory for queries")
 	keep := flag.String("keep", "", "directory where failing/unknown queries are kept")
+	mode := flag.String("mode", "", "contract variant to use (contracts with `opt mode=<m>` override the default ones)")
 	knownFile := flag.String("known", "", "JSON list of known findings (obligation tag + region) to carve out")
+	noLemmas := flag.Bool("nolemmas", false, "skip pure lemmas and call-graph obligations (already covered by another run)")
 	lemmasOnly := flag.Bool("lemmas-only", false, "only pure lemmas")
 	listOnly := flag.Bool("list", false, "list functions with contracts and exit")
 	dumpPaths := flag.Bool("v", false, "verbose")
@@ -91,6 +93,20 @@ func main() {
 	}
 	for _, p := range prog.AllPackages() {
 		eng.pkgs[p.Pkg.Path()] = p
+	}
+	eng.mode = *mode
+	eng.reg.resolve = func(name string) bool {
+		for _, p := range prog.AllPackages() {
+			for mn, m := range p.Members {
+				if t, ok := m.(*ssa.Type); ok && "S_"+mangle(p.Pkg.Name()+"_"+mn) == name {
+					if _, isStruct := t.Type().Underlying().(*types.Struct); isStruct && strings.HasPrefix(p.Pkg.Path(), eng.cfg.RepoPrefix) {
+						eng.reg.structSort(t.Type())
+						return true
+					}
+				}
+			}
+		}
+		return false
 	}
 	if err := eng.specs.loadSpecDir(*specDir); err != nil {
 		fmt.Fprintln(os.Stderr, "spec:", err)
@@ -134,7 +150,18 @@ func main() {
 		if c.Assumed {
 			continue
 		}
-		if _, ok := byName[k]; !ok {
+		base := k
+		if i := strings.Index(k, "@"); i >= 0 {
+			if k[i+1:] != eng.mode {
+				continue
+			}
+			base = k[:i]
+		} else if eng.mode != "" {
+			if _, has := eng.specs.Contracts[k+"@"+eng.mode]; has {
+				continue
+			}
+		}
+		if _, ok := byName[base]; !ok {
 			continue
 		}
 		keys = append(keys, k)
@@ -150,6 +177,9 @@ func main() {
 	t1 := time.Now()
 	// contracts naming functions that do not exist are an error (stale contract)
 	for k, c := range eng.specs.Contracts {
+		if i := strings.Index(k, "@"); i >= 0 {
+			k = k[:i]
+		}
 		if c.Assumed || strings.HasPrefix(k, "(") && !strings.Contains(k, "*") && byName[k] == nil {
 			continue
 		}
@@ -164,7 +194,11 @@ func main() {
 			if len(want) > 0 {
 				ok := false
 				for _, w := range want {
-					if strings.HasSuffix(k, w) || k == w {
+					kb := k
+					if i := strings.Index(k, "@"); i >= 0 {
+						kb = k[:i]
+					}
+					if strings.HasSuffix(kb, w) || kb == w {
 						ok = true
 					}
 				}
@@ -172,7 +206,11 @@ func main() {
 					continue
 				}
 			}
-			fn := byName[k]
+			base := k
+			if i := strings.Index(k, "@"); i >= 0 {
+				base = k[:i]
+			}
+			fn := byName[base]
 			if fn.Blocks == nil {
 				continue
 			}
@@ -185,8 +223,10 @@ func main() {
 			rep.Paths[k] = eng.paths
 		}
 	}
-	eng.lemmaObligations()
-	eng.callersObligations()
+	if !*noLemmas {
+		eng.lemmaObligations()
+		eng.callersObligations()
+	}
 	rep.GenSecs = time.Since(t1).Seconds()
 
 	// filter by tags
@@ -220,7 +260,7 @@ func main() {
 	for _, o := range eng.obls {
 		keepIt := len(tagw) == 0
 		switch o.Kind {
-		case "invariant-entry", "invariant-preserved", "decreases", "callee-precondition":
+		case "invariant-entry", "invariant-preserved", "decreases", "callee-precondition", "frame":
 			if fnWanted[o.Func] {
 				keepIt = true
 			}
@@ -364,6 +404,9 @@ func (e *Engine) callersObligations() {
 			}
 			if pk != nil && (strings.HasSuffix(pk.Pkg.Path(), "/testonly") || strings.Contains(pk.Pkg.Path(), "/cmd/loadtest")) {
 				continue
+			}
+			if strings.HasSuffix(e.prog.Fset.Position(fn.Pos()).Filename, "_verif.go") {
+				continue // verification harness (build tag verif), not part of the shipped program
 			}
 			for _, b := range fn.Blocks {
 				for _, in := range b.Instrs {
